@@ -2037,3 +2037,321 @@ Proof.
   destruct s as [run|id]; cbn [run_rel]; auto.
   intros H1 H2. apply pipeline_leaves; assumption.
 Qed.
+
+(* ------------------------------------------------------------------ *)
+(* runs without any alias never hit AliasClash *)
+Definition gok (x : gseg) : bool :=
+  match x with GS s => negb (is_some (salias s)) | GL l => forallb noalias l end.
+Definition gnoalias (p : list gseg) : bool := forallb gok p.
+
+Lemma forallb_map' {A B} (f : B -> bool) (g : A -> B) l :
+  forallb f (map g l) = forallb (fun x => f (g x)) l.
+Proof. induction l as [|x l IH]; cbn [map forallb]; auto. rewrite IH; reflexivity. Qed.
+
+Lemma noalias_path t : noalias t = gnoalias (path t).
+Proof.
+  destruct t as [p k v a c]. unfold path, gnoalias. cbn [noalias pre kids].
+  rewrite forallb_app, forallb_map'. cbn [gok]. fold (alias_free p).
+  destruct k; cbn [klist forallb gok]; rewrite ?andb_true_r; reflexivity.
+Qed.
+
+Lemma of_path_noalias p v a c : gnoalias p = true -> noalias (of_path p v a c) = true.
+Proof.
+  unfold of_path. revert v a c.
+  induction p as [|[s|l] r IH]; intros v a c H; cbn [split_path].
+  - reflexivity.
+  - cbn [gnoalias forallb gok] in H. apply andb_true_iff in H. destruct H as [H1 H2].
+    specialize (IH v a c H2). destruct (split_path r) as [q k].
+    cbn [noalias alias_free forallb] in *. rewrite H1. exact IH.
+  - cbn [gnoalias forallb gok] in H. apply andb_true_iff in H. destruct H as [H1 _].
+    cbn [noalias alias_free forallb]. exact H1.
+Qed.
+
+Lemma forallb_firstn {A} (f : A -> bool) n l : forallb f l = true -> forallb f (firstn n l) = true.
+Proof.
+  intros H. rewrite <- (firstn_skipn n l), forallb_app in H. apply andb_true_iff in H. tauto.
+Qed.
+Lemma forallb_skipn {A} (f : A -> bool) n l : forallb f l = true -> forallb f (skipn n l) = true.
+Proof.
+  intros H. rewrite <- (firstn_skipn n l), forallb_app in H. apply andb_true_iff in H. tauto.
+Qed.
+
+Lemma gok_nth0 p : gnoalias p = true -> gok (nth 0 p (GS Glob)) = true.
+Proof. destruct p as [|x r]; cbn [nth gnoalias forallb]; auto. intros H; apply andb_true_iff in H; tauto. Qed.
+Lemma gok_galias x : gok x = true -> galias x = None.
+Proof.
+  destruct x as [s|l]; cbn [gok galias]; auto. destruct (salias s); [discriminate|reflexivity].
+Qed.
+
+Lemma rest_noalias rest :
+  gnoalias rest = true ->
+  forallb noalias (match rest with [GL rl] => rl | _ => [from_path rest] end) = true.
+Proof.
+  intros H.
+  assert (Hd : forallb noalias [from_path rest] = true).
+  { cbn [forallb]. rewrite andb_true_r. apply of_path_noalias. exact H. }
+  destruct rest as [|[s|l] [|y r]]; try exact Hd.
+  cbn [gnoalias forallb gok] in H. rewrite andb_true_r in H. exact H.
+Qed.
+
+Section NoAlias.
+Variable cmp : tree -> tree -> comparison.
+
+Lemma merge_rest_noalias inner pa ka b len :
+  gnoalias (map GS pa ++ klist ka) = true -> gnoalias b = true ->
+  (forall l, ka = Some l -> forallb noalias (inner l (from_path (skipn len b))) = true) ->
+  match merge_rest_with cmp inner pa ka b len with
+  | Some np => gnoalias np = true
+  | None => True
+  end.
+Proof.
+  intros HA Hb Hinner. unfold merge_rest_with.
+  set (A := map GS pa ++ klist ka) in *.
+  assert (Hfin : forall n, gnoalias (firstn n b ++
+             [GL (sort_by cmp [from_path (skipn n A); from_path (skipn n b)])]) = true).
+  { intros n. unfold gnoalias. rewrite forallb_app. cbn [forallb gok].
+    rewrite (forallb_firstn _ n b Hb).
+    rewrite (forallb_perm _ _ _ (sort_perm _ cmp _)). cbn [forallb]. unfold from_path.
+    rewrite !of_path_noalias; auto; apply forallb_skipn; assumption. }
+  destruct (Nat.eqb (length A) len && Nat.eqb (length b) len); [exact I|].
+  destruct (negb (Nat.eqb (length A) len) && negb (Nat.eqb (length b) len)).
+  - destruct ka as [l|]; [|apply Hfin].
+    destruct (Nat.eqb len (length pa)); [|apply Hfin].
+    unfold gnoalias. rewrite forallb_app. cbn [forallb gok].
+    rewrite (forallb_firstn _ len b Hb), (Hinner l eq_refl). reflexivity.
+  - destruct (Nat.eqb len 1); [|apply Hfin].
+    cbn [gnoalias forallb gok].
+    rewrite (gok_nth0 b Hb). cbn [andb]. rewrite andb_true_r.
+    assert (Hc : galias (if Nat.eqb (length A) len then nth 0 A (GS Glob) else nth 0 b (GS Glob)) = None).
+    { destruct (Nat.eqb (length A) len); apply gok_galias, gok_nth0; assumption. }
+    rewrite Hc. cbn [from_path of_path split_path noalias alias_free forallb salias is_some negb andb].
+    apply rest_noalias. destruct (Nat.eqb (length A) len); apply forallb_skipn; assumption.
+Qed.
+
+Lemma forallb_apply_at (P : tree -> bool) f l : forall i,
+  forallb P l = true -> (forall x, In x l -> P (f x) = true) -> forallb P (apply_at f i l) = true.
+Proof.
+  induction l as [|y l IH]; intros i H Hf; [reflexivity|].
+  cbn [forallb] in H. apply andb_true_iff in H. destruct H as [H1 H2].
+  destruct i as [|i]; cbn [apply_at forallb].
+  - rewrite (Hf y (or_introl eq_refl)), H2. reflexivity.
+  - fold (apply_at f). rewrite H1, IH; auto. intros x Hx. apply Hf. right. assumption.
+Qed.
+
+Lemma inner_noalias m mrg trees u :
+  forallb noalias trees = true -> noalias u = true ->
+  (forall x, In x trees -> noalias (mrg x) = true) ->
+  forallb noalias (inner_with cmp mrg m trees u) = true.
+Proof.
+  intros H Hu Hm. unfold inner_with. destruct (inner_choice m trees u).
+  - assumption.
+  - apply forallb_apply_at; assumption.
+  - rewrite (forallb_perm _ _ _ (sort_perm _ cmp _)), forallb_app. cbn [forallb].
+    rewrite H, Hu. reflexivity.
+Qed.
+
+Lemma merge_noalias m self : forall other,
+  noalias self = true -> noalias other = true -> noalias (merge cmp m self other) = true.
+Proof.
+  induction self as [pa v a c|pa l v a c IH] using tree_ind'; intros other Hs Ho; cbn [merge].
+  - pose proof (merge_rest_noalias
+                  (fun l u => inner_with cmp (fun t => merge cmp m t u) m l u) pa None (path other)
+                  (prefix_len true (map GS pa ++ klist None) (path other))) as H.
+    pose proof Hs as HA. rewrite noalias_path in HA. unfold path in HA. cbn [pre kids] in HA.
+    pose proof Ho as HB. rewrite noalias_path in HB.
+    specialize (H HA HB ltac:(intros l E; discriminate)).
+    destruct (merge_rest_with _ _ _ _ _ _); [apply of_path_noalias; exact H|exact Hs].
+  - pose proof (merge_rest_noalias
+                  (fun l u => inner_with cmp (fun t => merge cmp m t u) m l u) pa (Some l) (path other)
+                  (prefix_len true (map GS pa ++ klist (Some l)) (path other))) as H.
+    pose proof Hs as HA. rewrite noalias_path in HA. unfold path in HA. cbn [pre kids] in HA.
+    pose proof Ho as HB. rewrite noalias_path in HB.
+    assert (Hl : forallb noalias l = true).
+    { cbn [noalias] in Hs. apply andb_true_iff in Hs. tauto. }
+    assert (Hi : forall l0, Some l = Some l0 ->
+              forallb noalias (inner_with cmp (fun t => merge cmp m t
+                 (from_path (skipn (prefix_len true (map GS pa ++ klist (Some l)) (path other)) (path other))))
+                 m l0 (from_path (skipn (prefix_len true (map GS pa ++ klist (Some l)) (path other))
+                                        (path other)))) = true).
+    { intros l0 E. inversion E; subst l0.
+      assert (Hu : noalias (from_path (skipn (prefix_len true (map GS pa ++ klist (Some l)) (path other))
+                                             (path other))) = true).
+      { apply of_path_noalias, forallb_skipn. rewrite <- noalias_path. assumption. }
+      apply inner_noalias; auto.
+      intros x Hx. rewrite Forall_forall in IH. apply IH; auto.
+      eapply forallb_In; eassumption. }
+    specialize (H HA HB Hi).
+    destruct (merge_rest_with _ _ _ _ _ _); [apply of_path_noalias; exact H|exact Hs].
+Qed.
+End NoAlias.
+
+Lemma sseg_eea_noalias s t :
+  salias s = None -> salias t = None -> sseg_eea s t = sseg_eqb s t.
+Proof.
+  destruct s, t; cbn [salias sseg_eea sseg_eqb]; intros; subst; auto.
+  cbn [oname_eqb]. rewrite andb_true_r. reflexivity.
+Qed.
+Lemma eea_noalias x y : gok x = true -> gok y = true -> eea x y = gseg_eqb x y.
+Proof.
+  destruct x as [s|l], y as [t|l']; cbn [gok eea gseg_eqb]; auto.
+  intros H1 H2. apply sseg_eea_noalias.
+  - destruct (salias s); [discriminate|reflexivity].
+  - destruct (salias t); [discriminate|reflexivity].
+Qed.
+Lemma root_clash_noalias a b : gnoalias a = true -> gnoalias b = true -> root_clash a b = false.
+Proof.
+  destruct a as [|x ra], b as [|y rb]; cbn [root_clash gnoalias forallb]; auto.
+  rewrite !andb_true_iff. intros [H1 _] [H2 _]. rewrite (eea_noalias x y H1 H2).
+  destruct (gseg_eqb x y); reflexivity.
+Qed.
+Lemma check_at_false (f : tree -> bool) l : forall i,
+  (forall x, In x l -> f x = false) -> check_at f i l = false.
+Proof.
+  induction l as [|y l IH]; intros i H; [reflexivity|].
+  destruct i as [|i]; cbn [check_at].
+  - apply H. left. reflexivity.
+  - fold (check_at f). apply IH. intros x Hx. apply H. right. assumption.
+Qed.
+
+Lemma merge_clash_noalias m self : forall other,
+  noalias self = true -> noalias other = true -> merge_clash m self other = false.
+Proof.
+  induction self as [pa v a c|pa l v a c IH] using tree_ind'; intros other Hs Ho;
+    cbn [merge_clash];
+    pose proof Hs as HA; rewrite noalias_path in HA; unfold path in HA; cbn [pre kids] in HA;
+    pose proof Ho as HB; rewrite noalias_path in HB;
+    rewrite (root_clash_noalias _ _ HA HB); cbn [orb].
+  - apply andb_false_r.
+  - match goal with |- context [inner_choice m l ?u] => set (u0 := u) end.
+    destruct (inner_choice m l u0) as [|i|]; try (rewrite !andb_false_r; reflexivity).
+    rewrite check_at_false; [rewrite !andb_false_r; reflexivity|].
+    intros x Hx. rewrite Forall_forall in IH. apply IH; auto.
+    + cbn [noalias] in Hs. apply andb_true_iff in Hs. destruct Hs as [_ Hs].
+      eapply forallb_In; eassumption.
+    + apply of_path_noalias, forallb_skipn. assumption.
+Qed.
+
+Lemma flatten_noalias item t :
+  noalias t = true -> Forall (fun f => noalias f = true) (flatten item t).
+Proof.
+  induction t as [p v a c|p l v a c IH] using tree_ind'; intros Hs.
+  - cbn [flatten]. destruct (_ || _); repeat constructor; assumption.
+  - cbn [flatten]. destruct (_ || _); [repeat constructor; assumption|].
+    destruct (sole_self l); [repeat constructor; assumption|].
+    cbn [noalias] in Hs. apply andb_true_iff in Hs. destruct Hs as [Hp Hl].
+    apply Forall_forall. intros f Hf. apply in_flat_map in Hf.
+    destruct Hf as [nested [Hn Hf]]. apply in_map_iff in Hf. destruct Hf as [f0 [E Hf0]].
+    subst f. rewrite Forall_forall in IH.
+    pose proof (IH nested Hn (forallb_In _ _ _ Hl Hn)) as HF. rewrite Forall_forall in HF.
+    specialize (HF f0 Hf0). destruct f0 as [pf kf vf af cf]. cbn [noalias pre kids] in *.
+    apply andb_true_iff in HF. destruct HF as [F1 F2].
+    rewrite alias_free_app, Hp, F1, F2. reflexivity.
+Qed.
+
+Lemma nest_trailing_self_noalias t : noalias t = true -> noalias (nest_trailing_self t) = true.
+Proof.
+  destruct t as [p [l|] v a c]; cbn [nest_trailing_self]; auto.
+  destruct (rev p) as [|last rq] eqn:Er; auto.
+  destruct last as [n al|al|al|al|]; auto.
+  apply rev_cons_eq in Er. subst p. cbn [noalias]. rewrite andb_true_r, alias_free_app.
+  intros H. apply andb_true_iff in H. destruct H as [H1 H2]. rewrite H1.
+  cbn [from_path of_path split_path forallb noalias]. rewrite H2. reflexivity.
+Qed.
+
+Section NoAliasRun.
+Variable cmp : tree -> tree -> comparison.
+
+Lemma add_ev_noalias m res e :
+  Forall (fun t => noalias t = true) res -> noalias (ev_tree e) = true ->
+  Forall (fun t => noalias t = true) (add_ev cmp m res e).
+Proof.
+  intros Hres He. destruct e as [t|f]; cbn [add_ev ev_tree] in *.
+  - apply Forall_app. split; [assumption|repeat constructor; assumption].
+  - unfold add_flattened. destruct (find_index _ 0 res) as [i|].
+    + apply Forall_forall. rewrite Forall_forall in Hres.
+      assert (H : forallb noalias (apply_at (fun t => merge cmp m t f) i res) = true).
+      { apply forallb_apply_at.
+        - apply forallb_forall. assumption.
+        - intros x Hx. apply merge_noalias; auto. }
+      rewrite forallb_forall in H. exact H.
+    + apply Forall_app. split; [assumption|]. constructor; [|constructor].
+      destruct m; auto using nest_trailing_self_noalias.
+Qed.
+
+Lemma run_clash_noalias m es : forall res,
+  Forall (fun t => noalias t = true) res -> Forall (fun e => noalias (ev_tree e) = true) es ->
+  run_clash cmp m res es = false.
+Proof.
+  induction es as [|e es IH]; intros res Hres Hes; cbn [run_clash]; [reflexivity|].
+  inversion Hes as [|? ? He Hes']; subst.
+  rewrite IH; auto using add_ev_noalias. rewrite orb_false_r.
+  destruct e as [t|f]; cbn [ev_clash]; [reflexivity|].
+  destruct (find_index _ 0 res) as [i|]; [|reflexivity].
+  apply check_at_false. intros x Hx. rewrite Forall_forall in Hres.
+  apply merge_clash_noalias; auto.
+Qed.
+
+Lemma norm_simple_noalias P v a c :
+  alias_free P = true -> noalias (norm_simple P v a c) = true.
+Proof.
+  intros H. unfold norm_simple.
+  assert (Hd : noalias (Node P None v a c) = true) by (cbn [noalias]; rewrite H; reflexivity).
+  destruct (rev P) as [|last rq] eqn:Er; [exact Hd|].
+  apply rev_cons_eq in Er. subst P. rewrite alias_free_app in H.
+  apply andb_true_iff in H. destruct H as [H1 H2].
+  destruct (negb (is_some a) && _); [reflexivity|].
+  destruct last as [n al|[b|]|al|al|]; try exact Hd.
+  - cbn [alias_free forallb salias is_some negb andb] in H2. discriminate.
+  - destruct rq as [|t rq']; [exact Hd|]. cbn [noalias]. rewrite H1. reflexivity.
+Qed.
+
+Lemma norm_noalias t : forall acc v a c,
+  alias_free acc = true -> noalias t = true -> noalias (norm cmp acc v a c t) = true.
+Proof.
+  induction t as [p v0 a0 c0|p l v0 a0 c0 IH] using tree_ind'; intros acc v a c Hacc Ht;
+    cbn [noalias] in Ht; apply andb_true_iff in Ht; destruct Ht as [Hp Hl].
+  - cbn [norm kids pre]. apply norm_simple_noalias. rewrite alias_free_app, Hacc, Hp. reflexivity.
+  - assert (HP : alias_free (acc ++ p) = true) by (rewrite alias_free_app, Hacc, Hp; reflexivity).
+    rewrite Forall_forall in IH.
+    assert (Hgen : noalias (Node (acc ++ p)
+               (Some (sort_by cmp (map (fun k => norm cmp [] (vis k) (attrs k) (cmt k) k) l))) v a c)
+               = true).
+    { cbn [noalias]. rewrite HP. cbn [andb].
+      rewrite (forallb_perm _ _ _ (sort_perm _ cmp _)). apply forallb_forall.
+      intros x Hx. apply in_map_iff in Hx. destruct Hx as [k [<- Hk]].
+      apply IH; auto. eapply forallb_In; eassumption. }
+    cbn [norm kids pre]. destruct l as [|k [|k2 r]].
+    + destruct (is_some a); [|reflexivity]. cbn [sort_by fold_right noalias forallb].
+      rewrite HP. reflexivity.
+    + destruct (negb (is_self_string k) && negb (has_comment k)); [|exact Hgen].
+      apply IH; [left; reflexivity|assumption|]. eapply forallb_In; [eassumption|left; reflexivity].
+    + exact Hgen.
+Qed.
+
+Theorem alias_clash_noalias m ts :
+  forallb noalias ts = true -> alias_clash cmp m (map (normalize cmp) ts) = false.
+Proof.
+  intros H. unfold alias_clash. apply run_clash_noalias; [constructor|].
+  apply Forall_forall. intros e He. apply in_flat_map in He. destruct He as [n [Hn He]].
+  apply in_map_iff in Hn. destruct Hn as [t [<- Ht]].
+  assert (Hnt : noalias (normalize cmp t) = true).
+  { unfold normalize. apply norm_noalias; [reflexivity|]. eapply forallb_In; eassumption. }
+  unfold events in He. destruct (contains_comment _ || _).
+  - destruct He as [<-|[]]. exact Hnt.
+  - apply in_map_iff in He. destruct He as [f [<- Hf]]. cbn [ev_tree].
+    pose proof (flatten_noalias false _ Hnt) as HF. rewrite Forall_forall in HF. auto.
+Qed.
+
+(* P4 without aliases: Module, Crate, One keep the imports of every run that has no `as`
+   and no nested empty list *)
+Theorem noalias_leaves g ts :
+  g = Module \/ g = GCrate \/ g = One ->
+  forallb ast_shape ts = true -> forallb noalias ts = true ->
+  NestedEmptyList (map (normalize cmp) ts) = false ->
+  SameSet (Leaves (with_granularity cmp g (map (normalize cmp) ts))) (Leaves ts).
+Proof.
+  intros Hg Hs Hn He. apply granularity_leaves; [assumption|].
+  unfold BadClass. rewrite He.
+  destruct Hg as [ -> | [ -> | -> ] ]; cbn [orb]; apply alias_clash_noalias; assumption.
+Qed.
+End NoAliasRun.
